@@ -150,6 +150,7 @@ type wWorld struct {
 	panicked any
 	watchdog *time.Timer
 	noteSeq  func(route string, sel int) int // symbolic seq of a {note} (op.M): set by the C15 observer
+	files    []string                        // urls of uploads made by "upload" ops
 }
 
 const wStoreCfg = `{"uid_key":"la6YsO+bNX/+XIkOqc5Svw==","max_results":1024,"use_adapter":"verifmem"}`
